@@ -14,19 +14,19 @@ P = {
  "C02": ("hist", "exploration", "stateful PBT + probe re-open oracle (rapid)",
          "After every op a copy of the file image is opened in a fresh Store and compared with the model at the last successful Flush; 're-open' ops continue histories on the re-opened store.", "3 C02"),
  "C03": ("crash", "fault_enumeration", "exhaustive crash-point enumeration over generated histories",
-         "For every generated history every (write, byte) cut point of its write log is rebuilt and re-opened; the recovered state must be the last flush whose root record is complete; continuations and a second crash on drawn cuts. Exhaustive within each history, sampled over histories.", "3 C03"),
+         "For every generated history every (write, byte) cut point of its write log is rebuilt and re-opened; the recovered state must be the last flush whose root record is complete; continuations and a second crash on drawn cuts; every cut a second time with junk appended; a tail sweep re-opens complete files followed by junk tails of every length around the multiples of the power-of-two block sizes up to 64 KiB. Exhaustive within each history, sampled over histories.", "3 C03"),
  "C04": ("hist", "exploration", "stateful PBT with per-snapshot frozen models (rapid)",
          "Histories over the original and up to 4 snapshots (snapshots of snapshots, FlushRevert/Close on snapshots, rejected writes); every open snapshot is re-read against the model frozen at Snapshot() time, the original and the file are checked for non-interference.", "3 C04"),
  "C05": ("sched", "exploration", "schedule-generating PBT: harness-owned cooperative scheduler + version-interval oracle",
-         "One mutator, one flusher and 1-3 readers run under a generated schedule that switches at every StoreFile call, visitor callback and verifYield hook point; results are validated post hoc against the complete version log (single-version reads, no lost update, flush name order). Deterministic and shrinkable; interleavings finer than yield points are out of reach.", "3 C05"),
+         "One mutator, one flusher and 1-3 readers run under a generated schedule that switches at every StoreFile call, visitor callback and verifYield hook point; results are validated post hoc against the complete version log (single-version reads, no lost update, flush name order). Two yield points per file call (before it starts, after it took effect). Deterministic and shrinkable; interleavings finer than yield points are out of reach.", "3 C05"),
  "C06": ("hist", "exploration", "PBT of range queries vs model ranges, 3-way depth cross-check",
          "Contents in every cache state and under three comparators; range queries through all six APIs compared with the model range, early stop honoured, depths checked against full-scan consistency, binary-tree validity and the hook walk.", "3 C06"),
  "C07": ("fault", "fault_enumeration", "single-fault enumeration over generated histories (every I/O call x torn lengths)",
          "Each generated history is re-executed once per StoreFile call with that call failing (writes also torn at 1 byte / half / all-but-one), with retry and abandon variants; error returned, state unchanged, durable state intact, later behaviour identical to the fault-free run plus churn. Exhaustive over single faults within each history.", "3 C07"),
  "C08": ("hist", "exploration", "stateful PBT vs flush-stack model + termination watchdog",
          "Mutate/Flush/re-open/FlushRevert histories against a stack of flushed models; contents, file length and probe re-open after every revert; a case that does not return within the watchdog bound is confirmed by replay in a fresh process.", "3 C08"),
- "C09": ("hist", "exploration", "PBT with StoreFile call-log invariant",
-         "Every WriteAt/Truncate in the harness file's log is attributed to the API call (or harness read-back) in progress and checked against the append-only rules; the prefix below the durable end is compared byte for byte around every op. Covers the programs quantifier only dynamically.", "3 C09"),
+ "C09": ("hist", "exploration", "PBT with StoreFile call-log invariant (+ the same invariant under single-fault enumeration)",
+         "Every WriteAt/Truncate in the harness file's log is attributed to the API call (or harness read-back) in progress and checked against the append-only rules; the prefix below the durable end is compared byte for byte around every op; a fault phase repeats this under C07's single-fault enumeration (a failing Flush must not truncate or rewrite); tools/view is run over golden files. Covers the programs quantifier only dynamically.", "3 C09"),
  "C10": ("hist", "exploration", "stateful PBT, multi-store, free-list hook invariant",
          "Several stores share gkvlite's global free lists; snapshots released in any order, SetCollection/RemoveCollection/Close, nested ops inside visitors, iterators, churn; every open handle vs its model plus 'no node reachable from a live version is on the free list or zeroed' after every op.", "3 C10"),
  "C11": ("hist", "exploration", "PBT differential CopyTo vs source + independent decoder accounting",
@@ -34,7 +34,7 @@ P = {
  "C12": ("hist", "exploration", "stateful PBT vs name->contents model",
          "SetCollection/RemoveCollection/mutation/Flush/re-open histories against a model of names and contents, after every op and after probe re-open; free-list invariant on.", "3 C12"),
  "C13": ("hist", "exploration", "stateful PBT of tree invariants + exhaustive small-scope enumeration",
-         "After every op: order, binary-tree validity of reported depths, exact per-node aggregates (hook walk; uncached children from file bytes), heap order and canonical treap depth (while no lowering overwrite); plus every insertion order x priority ranking for n<=4 (quick) / n<=5 (thorough) with single deletes and raising overwrites.", "3 C13"),
+         "After every op: order, binary-tree validity of reported depths, exact per-node aggregates (hook walk; uncached children from file bytes), heap order and canonical treap depth (while no lowering overwrite), the same on the persisted tree read by the independent decoder after every Flush, a share of cases with a length-changing ItemValLength/ItemValWrite/ItemValRead representation; plus every insertion order x priority ranking for n<=4 (quick) / n<=5 (thorough) with single deletes and raising overwrites.", "3 C13"),
  "C14": ("hist", "exploration", "PBT with independent decoder (literal layout constants) + golden files",
          "Every flushed image of generated histories is parsed by a decoder that shares no code with gkvlite: framing, JSON shape, record placement, persisted aggregates, decoded state == model, every byte accounted for; golden files written by the pinned build must be read back identically.", "3 C14"),
  "C15": ("hist", "exploration", "stateful PBT with counting callbacks",
@@ -42,11 +42,11 @@ P = {
  "C16": ("hist", "exploration", "exhaustive size enumeration + PBT of contents",
          "Every n in 0..130 and around 1024/2048/3072/4096 in three cache states through Len, 8 block-visit variants and VisitItemsRandom (exactly-once coverage), plus generated key sets through the history interpreter.", "3 C16"),
  "C17": ("hist", "exploration", "PBT over all 256 callback subsets + differential vs callback-free run",
-         "Callback subsets enumerated round-robin over generated histories with the C01/C02/C06/C14 oracles on; the file written must be byte-identical to the one written without callbacks.", "3 C17"),
+         "Callback subsets enumerated round-robin over generated histories with the C01/C02/C06/C14/C19 oracles on; the callback-free reference run re-supplies comparators with SetCollection; the file written must be byte-identical to the one written without callbacks; a fault phase repeats C07's enumeration under drawn subsets (differential).", "3 C17"),
  "C18": ("hist", "exploration", "PBT of iterator scripts and re-entrant visitors",
-         "Next/Close scripts over up to 3 interleaved iterators with same-goroutine mutations, and visitors calling back into the store; sequence, Next()==false after end, producer goroutine exit, version reference count, watchdog.", "3 C18"),
- "C19": ("hist", "exploration", "PBT with read-log vs decoder value ranges",
-         "The StoreFile read log of key-only operations is intersected with value byte ranges computed by the independent decoder from every flush; reads during NewStore must stay inside the last root record and number <= 8.", "3 C19"),
+         "Next/Close scripts over up to 3 interleaved iterators with same-goroutine mutations, and visitors calling back into the store; sequence, Next()==false after end, producer goroutine exit, version reference count, watchdog; a fault phase fails every file call of visit/iterator histories once.", "3 C18"),
+ "C19": ("hist", "exploration", "PBT with read-log vs decoder value ranges (sequential histories + generated schedules)",
+         "The StoreFile read log of key-only operations is intersected with value byte ranges computed by the independent decoder from every flush; reads during NewStore must stay inside the last root record and number <= 8 (also with the KeyCompareForCollection callback installed); a concurrent phase attributes reads to key-only reader ops under the cooperative scheduler.", "3 C19"),
 }
 
 ENGINES = [
